@@ -1,8 +1,6 @@
 """C37 -- ConcurrentObjectArena growth and copies are exact.   Tie: D (sequential op sequences, ASan build) + native stress of concurrent grow_by."""
 import dv, pf_common, re, concurrent.futures
 
-KEY = 'copy-ctor-iterates-table-capacity'
-
 META = {
     'category': 'proof',
     'technique': 'Coq theorems over an executable Gallina model of ConcurrentObjectArena (sequential operations + small-step interleaving semantics of '
@@ -10,11 +8,11 @@ META = {
     'text': 'Kernel-checked: for every schedule of any number of concurrent grow_by calls (CAS loop on pos_, mutex-protected buffer-table growth, '
             'constructObjects) the returned index ranges are pairwise disjoint and tile [size before, size after), no uninitialised table entry is read, every '
             'element of a returned range is default-constructed, and existing elements keep their address and value; index -> (buffer, offset) is a bijection; '
-            'move construction, move assignment and swap exchange size and contents exactly.  Copy construction / copy assignment are exact when the buffer table '
-            'is full (buffersPos_ == buffersSize_) and are REFUTED otherwise (C37_refuted: the copy constructor loops to buffersSize_ and reads never-written '
-            'table entries; C37_holds_except states the property on the complement).  The model is tied to /repo by running the real arena on boundary-biased '
+            'copy construction and copy assignment are defined for every arena (any number of internal buffers, full buffer table or not) and produce the same '
+            'size and contents in fresh buffers (C37_copy_equal; the former refutation witness -- 3 buffers in a table of 4 -- is a regression example since the '
+            'fix commit in /repo); move construction, move assignment and swap exchange size and contents exactly.  The model is tied to /repo by running the real arena on boundary-biased '
             'operation sequences and comparing every observable with the model inside Coq; the executable property is evaluated on the implementation output.',
-    'note': 'Trusted: Coq kernel; harness/h_arena.cpp; g++ -fsanitize=address (fresh allocations filled with 0xbe make the uninitialised read a deterministic crash). '
+    'note': 'Trusted: Coq kernel; harness/h_arena.cpp; g++ -fsanitize=address (fresh allocations filled with 0xbe make a read of a never-written table entry a deterministic crash). '
             'No axioms (Print Assumptions: closed).',
 }
 
@@ -148,7 +146,7 @@ def gen_seq_case(r, safe_copies):
             s = r.choice(usable)
             a = st[s]
             if r.random() < safe_copies and a['nbuf'] < a['tcap'] and a['tcap'] <= 8:
-                # grow until the table is full so that the copy is in the defined domain
+                # sometimes grow until the table is full (buffersPos_ == buffersSize_): both table shapes are copied
                 need = (a['tcap'] - 1) * a['B'] + r.randrange(a['B']) - a['size']
                 if a['size'] + need < 40:
                     do_grow(s, need)
@@ -160,8 +158,6 @@ def gen_seq_case(r, safe_copies):
                 d = r.choice(live)
                 emit('A', d, s)
                 st[d] = dict(a)
-            if a['nbuf'] < a['tcap']:
-                break            # undefined behaviour expected here: the case ends
         elif k == 'M':
             s = r.choice(usable)
             d = r.choice(empty)
@@ -188,16 +184,16 @@ def run(ctx):
     exe = dv.build_harness('h_arena', ['h_arena.cpp'], need_lib=False, extra_flags=['-fsanitize=address'])
     ctx.phase('build')
     r = ctx.rng
-    nseq = 240 if ctx.quick else 5000
-    nmt = 24 if ctx.quick else 300
-    fixed = [WITNESS,
-             'seq 2 N 0 2 0 C 1 0',                               # a fresh arena already has 1 buffer in a table of 2
-             'seq 2 N 0 2 0 G 0 2 C 1 0 G 1 1 R 1 R 0',            # 2 buffers of 2: defined
-             'seq 2 N 0 2 0 G 0 6 W 0 5 42 C 1 0 W 1 0 9 R 0 R 1',  # 4 buffers: defined; deep copy
+    nseq = 200 if ctx.quick else 5000
+    nmt = 16 if ctx.quick else 300
+    fixed = [WITNESS + ' G 1 3 W 1 0 9 R 1 R 0',                   # regression: 3 buffers in a table of 4 (crashed before the fix commit)
+             'seq 2 N 0 2 0 C 1 0 G 1 4 R 1 R 0',                  # a fresh arena has 1 buffer in a table of 2
+             'seq 2 N 0 2 0 G 0 2 C 1 0 G 1 1 R 1 R 0',            # 2 buffers of 2: full table
+             'seq 2 N 0 2 0 G 0 6 W 0 5 42 C 1 0 W 1 0 9 R 0 R 1',  # 4 buffers: full table; deep copy
              'seq 3 N 0 4 5 N 1 1 3 S 0 1 R 0 R 1 V 0 1 R 0 M 2 0 R 2 A 1 1 R 1',
-             'seq 2 N 0 1 0 G 0 1 G 0 1 G 0 1 G 0 1 G 0 1 R 0 N 1 3 7 A 1 0',
+             'seq 2 N 0 1 0 G 0 1 G 0 1 G 0 1 G 0 1 G 0 1 R 0 N 1 3 7 A 1 0 R 1 G 1 2 R 1',   # copy assignment from 6 buffers in a table of 8
              ]
-    seq_cases = fixed + [gen_seq_case(r, 0.75 if i % 4 else 0.0) for i in range(nseq)]
+    seq_cases = fixed + [gen_seq_case(r, 0.35) for i in range(nseq)]
     mt_cases = []
     for i in range(nmt):
         m = r.choice([1, 2, 2, 4, 8, 16, 64])
@@ -208,11 +204,10 @@ def run(ctx):
         mt_cases.append('mt %d %d %d %d %d %d' % (m, init, nth, calls, maxd, r.randrange(1 << 30)))
     outs = pf_common.run_harness(exe, seq_cases + mt_cases, timeout=900)
     ctx.phase('run')
-    seq_terms, mt_terms, info = [], [], []
+    seq_terms, mt_terms = [], []
     for c, o in zip(seq_cases, outs[:len(seq_cases)]):
         t, ndone, crashed = seq_term(c, o)
         seq_terms.append(t)
-        info.append((ndone, crashed))
     mt_ranges = []
     for c, o in zip(mt_cases, outs[len(seq_cases):]):
         t, ranges = mt_term(c, o)
@@ -237,7 +232,7 @@ def run(ctx):
     if not ok:
         ctx.broken.append('correspondence D(C37): the model no longer evaluates (see coq_eval_errors)')
         return
-    hist = {0: 0, 1: 0, 2: 0, 4: 0}
+    hist = {0: 0, 1: 0, 2: 0}
     distinct = set()
     for i, (c, o, vv) in enumerate(zip(seq_cases, outs, verd_seq)):
         v, ndone = vv % 10, vv // 10          # ndone = index of the failing operation (verdicts 2 and 4)
@@ -245,10 +240,7 @@ def run(ctx):
         if ' G ' in c and (' C ' in c or ' A ' in c or ' S ' in c or ' V ' in c or ' M ' in c):
             distinct.add(c)
         cmd = 'echo "%s" | H_VERBOSE=1 build/harness/h_arena-*' % c
-        if v == 4:
-            ctx.violation('copy of an arena whose buffer table is not full (buffersPos_ < buffersSize_) reads an uninitialised table entry: %s -> %s'
-                          % (c, (o or '')[-120:]), {'finding_key': KEY, 'case': c, 'output': o, 'cmd': cmd, 'failed_at_op': ndone})
-        elif v == 2:
+        if v == 2:
             ctx.violation('ConcurrentObjectArena: operation #%d (0-based) of "%s" violates the property (size/contents/default-construction/stability) or crashed: %s'
                           % (ndone, c, (o or '')[-300:]), {'case': c, 'output': o, 'cmd': cmd, 'failed_at_op': ndone})
         elif v == 1:
@@ -268,8 +260,7 @@ def run(ctx):
     ctx.cov['rule'] = ('seq: operation sequences over 3 arena slots (minBuffSize 0..8, grow_by deltas aimed at buffer boundaries -1/0/+1, copies at full and at '
                        'non-full buffer tables, self-assignment, moves, swaps); non-trivial = has a grow and a copy/assign/move/swap.  mt: 2..8 threads x 5..40 '
                        'grow_by calls with random deltas; non-trivial = more than one range.  distinct = distinct case lines')
-    ctx.cov['verdict_histogram'] = {'agree_and_property_holds': hist[0], 'differs_but_property_holds': hist[1], 'property_fails': hist[2],
-                                    'property_fails_in_known_finding_domain': hist[4]}
+    ctx.cov['verdict_histogram'] = {'agree_and_property_holds': hist[0], 'differs_but_property_holds': hist[1], 'property_fails': hist[2]}
     ctx.cov['traces_validated_against_impl'] += hist[0]
     ctx.cov['stress_ranges_checked'] = sum(len(x) for x in mt_ranges)
     ctx.sample({'case': seq_cases[3], 'impl': outs[3]})
